@@ -175,9 +175,10 @@ class Controller:
 class CtlRLock:
     '''re-entrant lock; the outermost acquire..release is one operation'''
 
-    def __init__(self, ctl_ref, kind='env'):
+    def __init__(self, ctl_ref, kind='env', reentrant=True):
         self.ctl_ref = ctl_ref
         self.kind = kind
+        self.reentrant = reentrant
         self.owner = None
         self.depth = 0
         self.real = _threading.RLock()
@@ -188,6 +189,9 @@ class CtlRLock:
             return self.real.acquire(blocking, timeout)
         me = ctl.me()
         if self.owner is me:
+            if not self.reentrant:
+                # a plain Lock taken again by its owner: blocks for ever
+                ctl.yield_point(self.kind, None, pred=lambda: False)
             self.depth += 1
             return True
         ctl.yield_point(self.kind, None, pred=lambda: self.owner is None)
@@ -327,7 +331,7 @@ class _ThreadingShim:
         return CtlRLock(self._ctl_ref)
 
     def Lock(self):
-        return CtlRLock(self._ctl_ref)
+        return CtlRLock(self._ctl_ref, reentrant=False)
 
 
 class _TimeShim:
